@@ -198,8 +198,9 @@ func (t *TxWatcher) AddWaitForConfirmationTx(swapId string, txId string, _ uint3
 				// This tx watcher can also be used on recovery. This can lead to
 				// the situation that the tx is confirmed but also already too close
 				// to the CSV limit. Therefore we have to check on what we trigger
-				// here:  confirmationCallback for the case that we are in the
-				// limits, csvPassedCallback if we are above the csv limit.
+				// here: confirmationCallback without an error for the case that
+				// we are in the limits, confirmationCallback with an error if we
+				// are above the csv safety limit.
 				currentHeight, err := t.GetBlockHeight()
 				if err != nil {
 					// TODO: Add error return to somehow handle error in swap. Else
@@ -220,10 +221,16 @@ func (t *TxWatcher) AddWaitForConfirmationTx(swapId string, txId string, _ uint3
 				if confs >= onchain.BitcoinCsvSafetyLimit {
 					// We are already above half of the csv limit here, it is
 					// unsafe to pay for the invoice now.
-					// TODO: Check if this is handled correctly by the swap state
-					// machine.
+					// A swap that waits for the confirmation of the opening tx
+					// does not handle the csv passed event and would be stuck.
+					// We report the failure through the confirmation callback
+					// instead, so that the swap gets canceled.
 					log.Infof("[TxWatcher] Wait for confirmation on swap %s: Confirmations already above csv limit for tx %s", swapId, txId)
-					_ = t.csvPassedCallback(swapId)
+					if t.confirmationCallback == nil {
+						log.Infof("[TxWatcher] Wait for confirmation on swap %s: confirmationCallback is nil", swapId)
+						return
+					}
+					_ = t.confirmationCallback(swapId, "", fmt.Errorf("exceeded csv limit"))
 					return
 				}
 
